@@ -1,0 +1,181 @@
+//go:build verif
+
+package serializer
+
+// Contracts for the Deserializer primitives (properties C02, and the reader half of C01/C03),
+// read by the verification machinery in /verif. Comment-only file.
+//
+// Object invariant of a Deserializer: 0 <= offset <= len(src). Every method requires and
+// re-establishes it, never un-reads, never touches src, and every index / slice expression /
+// make / type assertion in its body is an obligation (no panic for any input bytes).
+// errProducer callbacks are unconstrained: they may return nil.
+
+/*@
+type Deserializer
+  invariant 0 <= self.offset && self.offset <= len(self.src)
+
+func DeSerializationMode.HasMode
+  ensures r0 <==> bitand(sm, mode) > 0
+
+func NewDeserializer
+  ensures r0 != nil && fresh(r0) && r0.src == src && r0.offset == 0 && r0.err == nil
+
+func Deserializer.RemainingBytes
+  requires d != nil && inv(d)
+  ensures len(r0) == len(d.src) - d.offset
+
+func Deserializer.Done
+  requires d != nil && inv(d)
+  ensures 0 <= r0 && r0 <= len(d.src) && r0 == d.offset && r1 == d.err      -- never more consumed bytes than supplied
+
+func Deserializer.Skip
+  requires d != nil && inv(d) && skip >= 0
+  callback errProducer(e) (r)
+  modifies d.offset, d.err
+  ensures r0 == d && inv(d) && d.src == old(d.src) && d.offset >= old(d.offset)
+  ensures old(d.err) != nil ==> d.offset == old(d.offset) && d.err == old(d.err)
+  ensures d.offset == old(d.offset) || d.offset == old(d.offset) + skip
+
+func Deserializer.ReadBool
+  requires d != nil && inv(d) && dest != nil
+  callback errProducer(e) (r)
+  modifies d.offset, d.err, *dest
+  ensures r0 == d && inv(d) && d.src == old(d.src) && d.offset >= old(d.offset)
+  ensures old(d.err) != nil ==> d.offset == old(d.offset) && d.err == old(d.err)
+  ensures d.offset != old(d.offset) ==> d.offset == old(d.offset) + 1 && (d.src[old(d.offset)] == 0 || d.src[old(d.offset)] == 1) && (*dest <==> d.src[old(d.offset)] == 1)
+
+func Deserializer.ReadByte
+  requires d != nil && inv(d) && dest != nil
+  callback errProducer(e) (r)
+  modifies d.offset, d.err, *dest
+  ensures r0 == d && inv(d) && d.src == old(d.src) && d.offset >= old(d.offset)
+  ensures old(d.err) != nil ==> d.offset == old(d.offset) && d.err == old(d.err)
+  ensures d.offset != old(d.offset) ==> d.offset == old(d.offset) + 1 && *dest == d.src[old(d.offset)]
+
+func Deserializer.ReadBytes
+  requires d != nil && inv(d) && slice != nil && numBytes >= 0
+  opt allocbound len(d.src) - d.offset
+  callback errProducer(e) (r)
+  modifies d.offset, d.err, *slice
+  ensures r0 == d && inv(d) && d.src == old(d.src)
+  ensures old(d.err) != nil ==> d.offset == old(d.offset) && d.err == old(d.err)
+  ensures numBytes >= 0 ==> d.offset >= old(d.offset)
+  ensures d.offset != old(d.offset) ==> d.offset == old(d.offset) + numBytes && len(*slice) == numBytes && fresh(*slice)
+  ensures d.offset != old(d.offset) ==> forall i Int :: 0 <= i && i < numBytes ==> (*slice)[i] == d.src[old(d.offset) + i]
+
+func Deserializer.ReadBytesInPlace
+  requires d != nil && inv(d)
+  callback errProducer(e) (r)
+  modifies d.offset, d.err, elems(slice)
+  ensures r0 == d && inv(d) && d.src == old(d.src) && d.offset >= old(d.offset)
+  ensures old(d.err) != nil ==> d.offset == old(d.offset) && d.err == old(d.err)
+
+func Deserializer.readSliceLength
+  requires d != nil && inv(d)
+  callback errProducer(e) (r)
+  panics-iff lenType != SeriLengthPrefixTypeAsByte && lenType != SeriLengthPrefixTypeAsUint16 && lenType != SeriLengthPrefixTypeAsUint32
+  modifies d.offset
+  ensures inv(d) && d.src == old(d.src) && d.offset >= old(d.offset) && r0 >= 0
+  ensures d.offset != old(d.offset) ==> r1 == nil
+  ensures d.offset == old(d.offset) ==> r0 == 0             -- not enough data (the error producer may still return nil)
+  ensures d.offset != old(d.offset) && lenType == SeriLengthPrefixTypeAsByte ==> d.offset == old(d.offset) + 1 && r0 == d.src[old(d.offset)]
+  ensures d.offset != old(d.offset) && lenType == SeriLengthPrefixTypeAsUint16 ==> d.offset == old(d.offset) + 2 && r0 == le16(elems(d.src), off(d.src) + old(d.offset))
+  ensures d.offset != old(d.offset) && lenType == SeriLengthPrefixTypeAsUint32 ==> d.offset == old(d.offset) + 4 && r0 == le32(elems(d.src), off(d.src) + old(d.offset))
+
+func Deserializer.ReadVariableByteSlice
+  requires d != nil && inv(d) && slice != nil
+  requires lenType == SeriLengthPrefixTypeAsByte || lenType == SeriLengthPrefixTypeAsUint16 || lenType == SeriLengthPrefixTypeAsUint32
+  opt allocbound len(d.src) - d.offset
+  callback errProducer(e) (r)
+  modifies d.offset, d.err, *slice
+  ensures r0 == d && inv(d) && d.src == old(d.src) && d.offset >= old(d.offset)
+  ensures old(d.err) != nil ==> d.offset == old(d.offset) && d.err == old(d.err)
+
+func Deserializer.ReadString
+  requires d != nil && inv(d) && s != nil
+  requires lenType == SeriLengthPrefixTypeAsByte || lenType == SeriLengthPrefixTypeAsUint16 || lenType == SeriLengthPrefixTypeAsUint32
+  callback errProducer(e) (r)
+  modifies d.offset, d.err, *s
+  ensures r0 == d && inv(d) && d.src == old(d.src) && d.offset >= old(d.offset)
+  ensures old(d.err) != nil ==> d.offset == old(d.offset) && d.err == old(d.err)
+
+func Deserializer.GetObjectType
+  requires d != nil && inv(d)
+  ensures r1 == nil && typeDen == TypeDenotationUint32 ==> len(d.src) - d.offset >= 4 && r0 == le32(elems(d.src), off(d.src) + d.offset)
+  ensures r1 == nil && typeDen == TypeDenotationByte ==> len(d.src) - d.offset >= 1 && r0 == d.src[d.offset]
+
+func Deserializer.ReadPayloadLength
+  requires d != nil && inv(d)
+  modifies d.offset
+  ensures inv(d) && d.src == old(d.src) && d.offset >= old(d.offset)
+  ensures r1 == nil ==> d.offset == old(d.offset) + 4 && r0 == le32(elems(d.src), off(d.src) + old(d.offset))
+  ensures r1 != nil ==> d.offset == old(d.offset)
+
+func Deserializer.ReadTime
+  requires d != nil && inv(d) && dest != nil
+  callback errProducer(e) (r)
+  modifies d.offset, d.err, *dest
+  ensures r0 == d && inv(d) && d.src == old(d.src) && d.offset >= old(d.offset)
+  ensures old(d.err) != nil ==> d.offset == old(d.offset) && d.err == old(d.err)
+  ensures d.offset != old(d.offset) ==> d.offset == old(d.offset) + 8
+
+func Deserializer.ReadUint256
+  requires d != nil && inv(d) && dest != nil
+  opt allocbound len(d.src) - d.offset
+  callback errProducer(e) (r)
+  modifies d.offset, d.err, *dest
+  loop 1 invariant 0 <= i && i <= 32 && 0 - 1 <= j && j <= 31 && i + j == 31 && len(source) == 32
+  ensures r0 == d && inv(d) && d.src == old(d.src) && d.offset >= old(d.offset)
+  ensures old(d.err) != nil ==> d.offset == old(d.offset) && d.err == old(d.err)
+  ensures d.offset != old(d.offset) ==> d.offset == old(d.offset) + 32
+
+func Deserializer.ConsumedAll
+  requires d != nil && inv(d)
+  callback errProducer(left, e) (r)
+  modifies d.err
+  ensures r0 == d && inv(d)
+
+func Deserializer.AbortIf
+  requires d != nil && inv(d)
+  callback errProducer(e) (r)
+  modifies d.err
+  ensures r0 == d && inv(d)
+
+func Deserializer.WithValidation
+  requires d != nil && inv(d)
+  callback errProducer(read, e) (r)
+  modifies d.err
+  ensures r0 == d && inv(d)
+
+func Deserializer.ReadSequenceOfObjects
+  requires d != nil && inv(d)
+  requires lenType == SeriLengthPrefixTypeAsByte || lenType == SeriLengthPrefixTypeAsUint16 || lenType == SeriLengthPrefixTypeAsUint32
+  requires bitand(deSeriMode, DeSeriModePerformValidation) > 0 ==> arrayRules != nil
+  callback errProducer(e) (r)
+  callback itemDeserializer(b) (n, err)
+    ensures err == nil ==> 0 <= n && n <= len(b)          -- what serix.decode* and every generated Deserialize promise
+  callback arrayElementValidator(index, next) (verr)      -- the validator closures only touch their own captured state
+  modifies d.offset, d.err
+  loop 1 invariant inv(d) && d.offset >= old(d.offset) && d.src == old(d.src)
+  ensures r0 == d && inv(d) && d.src == old(d.src) && d.offset >= old(d.offset)
+
+func ArrayRules.CheckBounds
+  requires ar != nil
+  ensures r0 == nil <==> (ar.Min == 0 || count >= ar.Min) && (ar.Max == 0 || count <= ar.Max)
+
+-- builds the validator closures; touches nothing that exists already
+func ArrayRules.ElementValidationFunc
+  requires ar != nil
+func ArrayRules.ElementValidationFunc$1
+  requires true
+func ArrayRules.ElementUniqueValidator
+  requires true
+func ArrayRules.LexicalOrderValidator
+  requires true
+func ArrayRules.LexicalOrderWithoutDupsValidator
+  requires true
+func ArrayRules.AtMostOneOfEachTypeValidator
+  requires true
+func ArrayValidationMode.HasMode
+  ensures r0 <==> bitand(av, mode) > 0
+@*/
